@@ -26,6 +26,8 @@ structure SkInst where
   k : SinkModels.Sk V
   kind : String
   hist : List V := []
+  /-- what the implementation answered to the most recent `fin` -/
+  lastFin : Option String := none
 
 /-- a float-typed filter instance (Hampel, preset convolutions / wavelet filters) -/
 structure FInst (F : Type) where
